@@ -649,10 +649,15 @@ func c11BuilderParts(env *mc.Env) []c11BPart {
 			evp: []*string{nil, c11Str("-1")}, sub: un,
 			usage: []int64{0, 1, 3}, req: []int64{1}, inactive: []bool{false}}
 	}
+	orderQuick := func(f string) *c11Alpha {
+		return &c11Alpha{qos: []string{"BE"}, prio: []*int32{batch, batch2, mid, nil}, enabled: []bool{true}, policy: un,
+			evp: []*string{nil, c11Str("-1"), c11Str("x")}, sub: []*string{nil, c11Str("9")},
+			usage: []int64{-1, 0, 3}, req: []int64{0, 2}, inactive: []bool{false}}
+	}
 	ths := []int32{5999, 7999, 9999}
 	parts := []c11BPart{
 		{"elig-n1", 1, eligFull, ths},
-		{"order-n2", 2, orderFull, []int32{7999}},
+		{"order-n2", 2, orderQuick, []int32{7999}},
 		{"elig-n2", 2, eligSmall, ths},
 		{"order-n3", 3, orderSmall, []int32{7999}},
 		{"order-nilprio-n3", 3, orderTiny, []int32{7999}},
@@ -660,6 +665,7 @@ func c11BuilderParts(env *mc.Env) []c11BPart {
 	if env.Thorough() {
 		parts = append(parts,
 			c11BPart{"elig-n2-full", 2, eligFull, ths},
+			c11BPart{"order-n2-full", 2, orderFull, []int32{7999}},
 			c11BPart{"order-n3-mid", 3, orderMid, []int32{7999}},
 			c11BPart{"elig-n3", 3, eligSmall, []int32{7999}},
 			c11BPart{"order-n4", 4, orderSmall, []int32{7999}},
@@ -743,6 +749,7 @@ type c11EPart struct {
 	evp      []*string
 	usage    []int64
 	req      []int64
+	rich     bool // more node situations (both priority thresholds per feature)
 }
 
 func c11Kinds() map[string]c11P {
@@ -796,35 +803,51 @@ func c11EParts(env *mc.Env) []c11EPart {
 	}
 	un := []*string{nil}
 	evp2 := []*string{nil, c11Str("-1")}
+	evp3 := []*string{nil, c11Str("-1"), c11Str("5")}
 	all := pick("be", "be-noevict", "mid", "mid-noevict", "prod", "none", "be-only-alloc", "be-only-be", "be-nilprio")
-	core := pick("be", "be-noevict", "mid", "prod", "be-only-alloc")
+	core := pick("be", "be-noevict", "mid", "prod", "none", "be-only-alloc")
 	small := pick("be", "mid", "none")
-	U3, U4 := []int64{0, 1, 3}, []int64{-1, 0, 1, 3}
+	tiny := pick("be", "mid")
 	var parts []c11EPart
-	sets := [][]string{{c11FBE}, {c11FUsed}, {c11FAlloc}, {c11FBE, c11FUsed}, {c11FBE, c11FAlloc}, {c11FAlloc, c11FUsed}, {c11FBE, c11FAlloc, c11FUsed}}
-	for _, fs := range sets {
-		name := strings.Join(fs, "+")
-		req := []int64{2}
-		if c11Has(fs, c11FAlloc) {
-			req = []int64{0, 2}
+	add := func(suffix string, n int, fs []string, kinds []c11P, evp []*string, usage, req []int64, rich bool) {
+		// a key that no enabled feature reads is not varied (c11NeedsUsage / c11NeedsReq are package hooks)
+		if !c11NeedsUsage(fs) {
+			usage = []int64{1}
 		}
-		parts = append(parts, c11EPart{"round-" + name + "-n1", 1, fs, all, []*string{nil, c11Str("-1"), c11Str("5")}, U4, []int64{0, 2}})
-		if len(fs) <= 2 {
-			parts = append(parts, c11EPart{"round-" + name + "-n2", 2, fs, core, evp2, U3, req})
-			if env.Thorough() {
-				parts = append(parts, c11EPart{"round-" + name + "-n2-all", 2, fs, all, evp2, U4, req})
-				parts = append(parts, c11EPart{"round-" + name + "-n3", 3, fs, core, evp2, U3, req})
-			} else {
-				parts = append(parts, c11EPart{"round-" + name + "-n3", 3, fs, small, un, U3, req})
-			}
-		} else if env.Thorough() {
-			parts = append(parts, c11EPart{"round-" + name + "-n2", 2, fs, core, evp2, U3, req})
-			parts = append(parts, c11EPart{"round-" + name + "-n3", 3, fs, small, un, U3, req})
+		if !c11NeedsReq(fs) {
+			req = []int64{2}
 		}
+		parts = append(parts, c11EPart{"round-" + strings.Join(fs, "+") + suffix, n, fs, kinds, evp, usage, req, rich})
 	}
+	U2, U3, U4, R2 := []int64{0, 3}, []int64{0, 1, 3}, []int64{-1, 0, 1, 3}, []int64{0, 2}
+	singles := [][]string{{c11FBE}, {c11FUsed}, {c11FAlloc}}
+	pairs := [][]string{{c11FBE, c11FUsed}, {c11FBE, c11FAlloc}, {c11FAlloc, c11FUsed}}
+	triple := []string{c11FBE, c11FAlloc, c11FUsed}
+	for _, fs := range singles {
+		add("-n1", 1, fs, all, evp3, U4, R2, true)
+		add("-n2", 2, fs, core, evp2, U3, R2, true)
+		add("-n3", 3, fs, small, un, U3, R2, false)
+	}
+	for _, fs := range pairs {
+		add("-n1", 1, fs, all, evp3, U4, R2, true)
+		add("-n2", 2, fs, core, un, U3, R2, false)
+	}
+	add("-n1", 1, triple, all, evp3, U4, R2, false)
+	// three pods under two simultaneous features: the two pairs whose tasks compete for the same amounts
+	add("-n3", 3, pairs[0], tiny, un, U2, R2, false)
+	add("-n3", 3, pairs[1], tiny, un, U2, R2, false)
 	if env.Thorough() {
-		parts = append(parts, c11EPart{"round-" + c11FBE + "+" + c11FUsed + "-n4", 4, []string{c11FBE, c11FUsed}, pick("be", "mid"), un, []int64{0, 1, 3}, []int64{2}})
-		parts = append(parts, c11EPart{"round-" + c11FAlloc + "-n4", 4, []string{c11FAlloc}, pick("be", "mid"), evp2, []int64{1}, []int64{0, 2}})
+		for _, fs := range singles {
+			add("-n2-all", 2, fs, all, evp2, U4, R2, true)
+			add("-n3-core", 3, fs, core, evp2, U3, R2, false)
+			add("-n4", 4, fs, tiny, un, U3, R2, false)
+		}
+		for _, fs := range pairs {
+			add("-n2-rich", 2, fs, core, evp2, U3, R2, true)
+			add("-n3-small", 3, fs, small, un, U3, R2, false)
+		}
+		add("-n2", 2, triple, core, un, U3, R2, false)
+		add("-n3", 3, triple, tiny, un, U2, R2, false)
 	}
 	sort.SliceStable(parts, func(i, j int) bool { return parts[i].n < parts[j].n })
 	return parts
@@ -846,7 +869,7 @@ func c11RunRoundParts(env *mc.Env, unit string) {
 		}
 		dims = append(dims, 1<<uint(ep.n))
 		rx := mc.Radix{Dims: dims}
-		rich := ep.n <= 2
+		rich := ep.rich
 		done, complete := penv.ParallelRangeL(res, rx.Size(), func(l *mc.Local, idx int64) {
 			d := rx.Decode(idx, make([]int, 0, 8))
 			c := c11MCase{Features: ep.features, Already: make([]bool, ep.n)}
